@@ -6,6 +6,11 @@ from .errors import JSSyntaxError
 from .values import as_double
 
 
+def _is_digit(ch: str) -> bool:
+    """ECMAScript DecimalDigit: ASCII 0-9 only (str.isdigit accepts every Unicode digit)."""
+    return "0" <= ch <= "9"
+
+
 class Lexer:
     """Tokenizes JavaScript source code."""
 
@@ -100,9 +105,9 @@ class Lexer:
                     result.append("'")
                 elif escape == '"':
                     result.append('"')
-                elif escape == "0" and not self._current().isdigit():
+                elif escape == "0" and not _is_digit(self._current()):
                     result.append("\0")
-                elif escape.isdigit():
+                elif _is_digit(escape):
                     raise JSSyntaxError(
                         "Octal escape sequences are not allowed", self.line, self.column
                     )
@@ -122,6 +127,8 @@ class Lexer:
                     hex_chars = self._advance() + self._advance()
                     try:
                         if not all(c in "0123456789abcdefABCDEF" for c in hex_chars):
+                            raise ValueError(hex_chars)
+                        if int(hex_chars, 16) > 0x10FFFF:
                             raise ValueError(hex_chars)
                         result.append(chr(int(hex_chars, 16)))
                     except ValueError:
@@ -144,6 +151,8 @@ class Lexer:
                             hex_chars += self._advance()
                     try:
                         if not all(c in "0123456789abcdefABCDEF" for c in hex_chars):
+                            raise ValueError(hex_chars)
+                        if int(hex_chars, 16) > 0x10FFFF:
                             raise ValueError(hex_chars)
                         result.append(chr(int(hex_chars, 16)))
                     except ValueError:
@@ -221,7 +230,7 @@ class Lexer:
             # Could be 0, 0.xxx, or 0e... - fall through to decimal handling
 
         # Decimal number (integer part)
-        while self._current() and self._current().isdigit():
+        while self._current() and _is_digit(self._current()):
             self._advance()
         if self.pos - start > 1 and self.source[start] == "0":
             # 010, 08: legacy octal / leading zeros are errors in strict code
@@ -237,7 +246,7 @@ class Lexer:
         ):
             is_float = True
             self._advance()  # .
-            while self._current() and self._current().isdigit():
+            while self._current() and _is_digit(self._current()):
                 self._advance()
 
         # Exponent
@@ -246,13 +255,14 @@ class Lexer:
             self._advance()
             if self._current() in "+-":
                 self._advance()
-            if not self._current() or not self._current().isdigit():
+            if not self._current() or not _is_digit(self._current()):
                 raise JSSyntaxError("Invalid number literal", line, col)
-            while self._current() and self._current().isdigit():
+            while self._current() and _is_digit(self._current()):
                 self._advance()
 
         num_str = self.source[start : self.pos]
-        if is_float:
+        if is_float or len(num_str) > 400:
+            # (the host refuses to convert integer strings of thousands of digits)
             return float(num_str)
         return as_double(int(num_str))
 
@@ -261,7 +271,7 @@ class Lexer:
         nxt = self._peek(offset + 1)
         if nxt in ("+", "-"):
             nxt = self._peek(offset + 2)
-        return nxt.isdigit()
+        return nxt != "" and _is_digit(nxt)
 
     def _read_identifier(self) -> str:
         """Read an identifier."""
@@ -290,7 +300,7 @@ class Lexer:
             return Token(TokenType.STRING, value, line, column)
 
         # Number literals
-        if ch.isdigit() or (ch == "." and self._peek().isdigit()):
+        if _is_digit(ch) or (ch == "." and _is_digit(self._peek())):
             value = self._read_number()
             return Token(TokenType.NUMBER, value, line, column)
 
